@@ -27,12 +27,12 @@ CHECKS = {
 }
 
 CHECKS["C18"] = dict(
-    text="Unbounded Lean theorems on the codec model: duration encode/decode round trip for every whole-second duration of either sign and its "
+    text="Unbounded Lean theorems on the codec model: duration encode/decode round trip for every duration of either sign down to the microsecond and its "
     "xsd:duration shape; boolean; every 24-bit colour and (by decide over the table regenerated from const.py at every run) every CSS name; date and "
     "datetime round trips for years 1..9999, every microsecond, every +-HH:MM offset including the '+00:00' -> 'Z' rewriting. Correspondence: "
     "datatype.py / color.py vs the model on boundary lattices, random interiors and a malformed near-miss stream; oracle with independent xsd regexes.",
     note="date.isoformat / datetime.fromisoformat are CPython: modelled for the forms isoformat produces (parameters, validated by the correspondence). "
-    "Duration.encode divides in floating point: the model divides exactly; equality is checked on the lattice (|d| < 2^53 us), not proved. "
+    "Duration.encode uses integer divmod since fix 5831ab8 (the model's arithmetic exactly). "
     "Unit (lengths) is not modelled. Known finding C18-F2 (Date.decode returns a datetime) is reported, not suppressed silently.",
     technique="Lean 4 theorems (parser/printer round trips by list-scanning lemmas, omega, decide +kernel over a generated table) + differential correspondence",
     design="5/C18",
@@ -137,6 +137,22 @@ CHECKS["C14"] = dict(
     "(names 'true'/'false' read back as booleans) is reported at every run.",
     technique="Lean 4 theorem (parser/printer round trip for every string) + differential correspondence with lxml + entry-point oracle",
     design="5/C14",
+)
+
+CHECKS["C06"] = dict(
+    level="partial",
+    text="Proved (decide over chains REGENERATED from the AST of set_value_and_type, Meta.set_user_defined_metadata and the Cell.value setter at every run): "
+    "every Python type enters the branch that writes its own ODF value type, datetime before date and bool before int; the codecs the branches call are exact "
+    "inverses for every value (C18 theorems: every duration to the microsecond, every valid datetime with offset, booleans). Oracle + correspondence: a value "
+    "lattice per type (None, bool, int to 10^30, float, Decimal, str incl. 'true'/'1.5'/dates-looking, date, datetime with microseconds and offsets, timedelta "
+    "of either sign with microseconds) x 9 carriers (Cell ctor / value= / set_value, Table.set_value, Row.set_value, VarSet, UserFieldDecl, UserDefined, "
+    "user-defined metadata) x {direct read, second reader, re-parsed element, save + reopen}, plus two-write histories (a carrier that already holds a value of "
+    "another type), lexical form of every attribute written, no stale value attribute.",
+    note="PARTIAL: the dispatch and the date/time/boolean codecs are proved; number formatting (str(float), Decimal(str), int(Decimal)) is CPython's and is "
+    "exercised by the oracle only; the attribute plumbing of each carrier and save/reopen are decided by the oracle on the generated lattice, not by a theorem. "
+    "A date is accepted back as the datetime at 00:00 of that day (documented behaviour, known finding C18-F2).",
+    technique="Lean 4 theorems over a model regenerated from the source AST (translator) + C18 codec round-trip theorems + value-lattice round-trip oracle",
+    design="5/C06",
 )
 
 NOT_YET = {}
